@@ -91,6 +91,19 @@ def judge(ctx, st, groups, metrics, subjects, cells, via_file, tag=""):
     det = {"groups": groups, "metrics": metrics, "subjects": subjects, "cells": {f"{s}|{g}|{m}": v for (s, g, m), v in list(cells.items())[:60]}, "via_file": via_file}
     feats = {"via_file": via_file}
     all_have = True
+    if len(subjects) % 2 == 0:
+        # other read accessors first: reading must not change what later summaries report
+        for m in metrics:
+            try:
+                allv = st.get_across_groups(m)
+            except Exception as e:  # noqa: BLE001
+                ctx.viol("get_across_groups_raised" + tag, dict(det, metric=m, exc=repr(e)[:200]), features=feats)
+                return False
+            want_all = [cells[(s, g, m)] if finite(cells[(s, g, m)]) else None for g in groups for s in subjects]
+            ctx.count("C20.across_groups_lists_judged")
+            if len(allv) != len(want_all) or any(not pan.same(a, b) for a, b in zip(allv, want_all)):
+                ctx.viol("get_across_groups_differs" + tag, dict(det, metric=m, got=allv[:40], expected=want_all[:40]), features=feats)
+                return False
     for g in groups:
         for m in metrics:
             vals = [cells[(s, g, m)] for s in subjects if finite(cells[(s, g, m)])]
